@@ -399,7 +399,10 @@ fn blk_one(cx: &mut Ctx, sel: u8, rng: &mut Rng) {
             if rng.chance(1, 2) {
                 blk::run_lifetime(cx, rng, &shapes)
             } else {
-                blk::run_keepalive(cx, rng, &shapes)
+                blk::run_keepalive(cx, rng, &shapes);
+                if rng.chance(1, 4) {
+                    blk::run_slow_app(cx, rng, &shapes)
+                }
             }
         }
         _ => {
